@@ -15,7 +15,7 @@ from gfv.core import Failure
 PROP = "C09"
 RULE = (
     "(a) files of 1-8 lines in one of the 36 grammar dialects in which every line renders >= 2 attribute parts with a "
-    "non-empty value (and a repeated key when the dialect repeats keys), any checklines in 0..n+2; (b) windows of 2-6 "
+    "non-empty value (and a repeated key when the dialect repeats keys), any checklines in 0..n+2, optionally with one attribute-less line (8 columns or an empty ninth) at a generated position, and the stored features handed to DataIterator again in another order (reversed / rotated / odd-first); (b) windows of 2-6 "
     "lines whose dialects differ in one entry (separator, trailing semicolon, repeated keys, key/value style) with "
     "generated attribute counts as weights, including exact ties; (c) a supplied dialect over files whose window alone "
     "would infer something else. Non-trivial = dialect differs from the default in >= 2 entries, or a mixture with "
